@@ -96,6 +96,7 @@ struct aws_allocator *verif_allocator(void);
 /* malloc that never returns NULL (assumed in CBMC; abort natively) */
 void *verif_malloc(size_t n);
 void verif_free(void *p);
+void *verif_malloc_sw(size_t n); /* small symbolic n: case split over constant-size objects */
 
 #ifdef VERIF_ALLOC_TRACK
 /* alloc_direct.c block-size tracking (for "zeroed before release" checks) */
